@@ -308,7 +308,7 @@ COMPILE_NOT_COVERED = ["scope sequences with two global definitions or three let
 CMIR = lambda which: SmtTask("c02_compile_mir", "c02_compile.py", quick=True, timeout=1800, args=[which])
 CMIR_FUNCS = ["MIR/z3: <AST as Compiled>::compile_into (all 23 arms, recursively), compile_function_definition, LabelGenerator / LabelGroup, "
               "Environment::*, ConstantPool::{register,find,push}, Globals::register, Code::{emit,emit_unless,extend}, AST constructors used by the compound-array rewrite"]
-CMIR_BOUNDS = ["MIR/z3 compiler task: 50 expression templates covering every arm with several children (calls, print, object, array with simple / compound / "
+CMIR_BOUNDS = ["MIR/z3 compiler task: 53 expression templates covering every arm with several children (calls, print, object, array with simple / compound / "
                "nested initializers, conditional, loop, block, field and array access / assignment, let / assign, shadowing), nesting depth <= 3, each in 4 "
                "contexts (value kept / discarded at top level, in a block, in a function); integer and boolean literals symbolic, names and shapes concrete; "
                "the enumerated paths are proved to cover all literal values (z3), the executor's output is compared with the natively compiled program on every template"]
@@ -346,7 +346,7 @@ def c02():
 
 
 def c12():
-    p = compile_prop("C12", set(), {("lr", "local"), ("lr", "top"), ("elr", "block"), ("elxr", "local"), ("elxer", "local"), ("elxea", "top")})
+    p = compile_prop("C12", set(), {("lr", "local"), ("lr", "top"), ("elr", "block"), ("elxr", "local"), ("elxer", "local"), ("elxea", "top"), ("lelr", "block")})
     p.smt_tasks.append(CMIR("C12"))
     p.functions = p.functions + CMIR_FUNCS
     p.bounds = p.bounds + CMIR_BOUNDS + [
@@ -364,16 +364,22 @@ def c07():
     p = Prop("C07")
     p.smt_tasks.append(SmtTask("c07_grammar_tables", "c07_grammar.py", quick=True, timeout=1200, args=["3"], thorough_args=["5"]))
     p.smt_tasks.append(SmtTask("lexer_regex_c07", "c07_lexer.py", quick=True, timeout=300, args=["C07"]))
+    p.smt_tasks.append(SmtTask("c07_token_actions_mir", "c07_actions.py", quick=True, timeout=900, args=["6"], thorough_args=["10"]))
     for h, q in (("fold_len1", True), ("operation_names", True)):
         p.add("h_parse::parse_" + h, quick=q, timeout=900, drives=["AST::from_binary_expression", "AST::operation", "Identifier::from(Operator)"],
               bound="operator fold over 3 one-character operators (symbolic); method names of all 13 operators")
     p.functions = ["fml.lalrpop: LALR tables generated by lalrpop 0.18.1 (__ACTION, __EOF_ACTION, __GOTO, __reduceN), match-block regexes",
+                   "generated parser: the __actionN functions of `String = STRING_LITERAL` and `Ident = IDENTIFIER` (from their MIR)", "<Identifier as From<&str>>::from",
                    "parser::AST::{from_binary_expression,operation}", "parser::Operator::as_str", "<Identifier as From<Operator>>::from"]
     p.bounds = ["precedence / associativity: all 13^n operator tuples, n <= 3 (quick) / n <= 5 (thorough), on the generated tables",
                 "templates: dangling else, field/call/index chain, index chain, array and field assignment, parentheses; atoms symbolic "
                 "over identifier / number / true / false / null / this",
-                "lexer: regular-language equivalence, inclusion and disjointness queries without a length bound"]
-    p.outside = ["the semantic actions of productions other than the operator fold (Rust closures the tables do not contain)",
+                "lexer: regular-language equivalence, inclusion and disjointness queries without a length bound",
+                "token actions (MIR/z3 on the generated parser's __actionN functions): `String = STRING_LITERAL` yields the literal without its two delimiting "
+                "quotes and `Ident = IDENTIFIER` the identifier named by the token, for every ASCII token text of the token's regex up to 6 (quick) / 10 (thorough) "
+                "characters, one run per length with every character symbolic; no panic reachable"]
+    p.outside = ["the semantic actions of productions other than the operator fold and the string / identifier token actions (Rust closures the tables do not contain)",
+                 "non-ASCII token texts in the token-action task (character and byte positions differ); the number token's action (`i32::from_str(..).unwrap()`)",
                  "printing an AST back to source and re-parsing; redundant-parenthesis insertion; sentences outside the templates",
                  "operator runs longer than 5"]
     p.stubs = p.stubs + ["lalrpop's LR driver is re-implemented by the symbolic executor (shift / reduce / goto on the generated tables); it is "
@@ -399,12 +405,18 @@ def c10():
     p.smt_tasks.append(VMK())
     p.smt_tasks.append(VMH())
     p.smt_tasks.append(PMIR())
+    p.smt_tasks.append(SmtTask("c10_print_graph_mir", "c15_print.py", quick=True, timeout=1500, args=["graph"], thorough_args=["graph-thorough"]))
     p.stubs = p.stubs + VMK_STUBS + PMIR_STUBS
     p.functions = VM_FUNCS + VMK_FUNCS + PRINT_FUNCS + PMIR_FUNCS
     p.bounds = VM_BOUNDS + PRINT_BOUNDS + PMIR_BOUNDS + ["print task: a print that fails (count mismatch, unknown escape) has written nothing, whatever its arguments are"]
     p.outside = VM_OUTSIDE + ["process exit status and stderr/stdout separation (main.rs), lexer/parser rejections",
                               "FML call depth 10^5 and source nesting depth 200 (CBMC cannot unwind that far)"]
-    p.not_covered = VM_NOT_COVERED + ["termination of recursive rendering on cyclic heaps (known finding, see known_findings.txt)"]
+    p.bounds = p.bounds + [
+        "value graphs (MIR/z3 task c10_print_graph_mir): print(\"~\", v) for every Pointer v over the 5-cell heap of the print task whose leaves e0, f0, p1 (quick; all five "
+        "leaves in the thorough tier) are any Pointer too, references included — every graph of that shape, cyclic ones included: the print terminates without a "
+        "native crash (a value that reaches itself may fail or print anything; more than 3 * 5 + 1 nested evaluate_as_string activations on a value the reference "
+        "finds cyclic is `unbounded recursion`, replayed natively: the process aborts on stack exhaustion), acyclic values print what C15 prescribes"]
+    p.not_covered = VM_NOT_COVERED + ["acyclic chains of 10^3 links, FML call depth 10^5, source nesting depth 200 (native stack depth is not a bounded-shape question)"]
     return p
 
 
@@ -453,9 +465,14 @@ def c16():
         p.add("h_heap::heap_allocate_" + h, quick=True, timeout=900, drives=["Heap::allocate", "HeapObject::size"],
               bound="allocate returns the old length, appends one cell, adds exactly size() > 0, size depends on shape only")
     p.smt_tasks.append(VMH("array", "object", "size"))
+    p.smt_tasks.append(CMIR("C16"))
     p.stubs = p.stubs + VMK_STUBS
-    p.functions = VM_FUNCS + VMK_FUNCS + ["heap::Heap::{allocate,set_size,verif_size (hook)}", "heap::HeapObject::size"]
-    p.bounds = VM_BOUNDS + VMK_BOUNDS
+    p.functions = VM_FUNCS + VMK_FUNCS + ["heap::Heap::{allocate,set_size,verif_size (hook)}", "heap::HeapObject::size"] + CMIR_FUNCS
+    p.stubs = p.stubs + CMIR_STUBS
+    p.bounds = VM_BOUNDS + VMK_BOUNDS + CMIR_BOUNDS + [
+        "compiler side of `one record per created array / object` (MIR/z3 compiler task, obligation O with allocation counts): on every template and context the number "
+        "of `array` and `object` instructions the emitted code executes on the reference stack machine equals the number of arrays and objects the README's "
+        "evaluator creates for the same program and run-time choices (discarded arrays with literal / variable size and initializer included)"]
     p.outside = VM_OUTSIDE + ["the CSV file itself (header, S record, timestamps, one A line per allocation): File and SystemTime are FFI; "
                               "the claim stops at `heap_log!(ALLOCATE)` being invoked once per allocate, which is read, not solved"]
     p.not_covered = VM_NOT_COVERED
@@ -465,9 +482,9 @@ def c16():
 def c11():
     p = Prop("C11")
     for name, q in (("h_ser::ser_framing_layout", True), ("h_ser::ser_method2_layout", False), ("h_compile::scope_lr_local", True),
-                    ("h_compile::scope_lelr_block", False), ("h_vm::vm_get_global", True), ("h_vm::vm_jump", False), ("h_c09::c09_int_add_sym", True),
+                    ("h_compile::scope_lelr_block", True), ("h_vm::vm_get_global", True), ("h_vm::vm_jump", False), ("h_c09::c09_int_add_sym", True),
                     ("h_c09::c09_int_mul_feeny", False)):
-        p.add(name, quick=q, timeout=1500, bound="kernel output is a function of its inputs (equals a reference computed from them); no clock / "
+        p.add(name, quick=q, timeout=1500, mem_gb=(30 if "scope_lelr" in name else 12), weight=(2 if "scope_lelr" in name else 1), bound="kernel output is a function of its inputs (equals a reference computed from them); no clock / "
                                                "environment / random call and no profile-dependent check is reachable")
     p.smt_tasks.append(SmtTask("c09_dispatch_mir", "c09_dispatch.py", quick=True, timeout=900))
     p.functions = SER_FUNCS + COMPILE_FUNCS + VM_FUNCS
